@@ -73,7 +73,7 @@ func (d *semDriver) run() {
 		k := twinKey(sc, cfg)
 		if _, ok := twinSpecs[k]; !ok {
 			twinSpecs[k] = d.mkSpec("twin/"+k, sc, cfg, OrderPlan{Mode: "canon"}, nil, false)
-			twinSpecs[k].Budget = 1000000000
+			twinSpecs[k].Budget = 400000000
 			tkeys = append(tkeys, k)
 		}
 		return k
